@@ -448,7 +448,7 @@ def iterfieldconvert(source, converters, failonerror, errorvalue, where,
             if where(row):
                 yield transform_row(row)
             else:
-                yield row
+                yield tuple(row)
 
 
 def methodcaller(nm, *args):
